@@ -2402,3 +2402,116 @@ example : (extract [(1, ⟨none, none, true⟩)] [⟨.type, some 2, 10⟩, ⟨.i
   decide
 
 end Attrs
+
+/-! ## 19. napoleon `_dedent`: the same number of columns from every line, never a non-blank character -/
+namespace Napoleon
+open Epytext (pyIsSpace Line mem_takeWhile_true)
+
+theorem loop_some (ls : List Line) : ∀ a : Nat, ∃ k, minIndentLoop ls (some a) = some k ∧ k ≤ a := by
+  induction ls with
+  | nil => intro a; exact ⟨a, rfl, Nat.le_refl _⟩
+  | cons l ls ih =>
+    intro a
+    simp only [minIndentLoop]
+    split
+    · exact ih a
+    · obtain ⟨k, hk, hle⟩ := ih (if getIndent l < a then getIndent l else a)
+      refine ⟨k, hk, ?_⟩
+      split at hle <;> omega
+
+theorem loop_le_mem (ls : List Line) : ∀ (m : Option Nat) (l : Line), l ∈ ls → l ≠ [] →
+    ∃ k, minIndentLoop ls m = some k ∧ k ≤ getIndent l := by
+  induction ls with
+  | nil => intro m l h; simp at h
+  | cons x xs ih =>
+    intro m l hl hne
+    simp only [minIndentLoop]
+    rcases List.mem_cons.mp hl with rfl | hmem
+    · have hx : l.isEmpty = false := by cases l <;> simp_all
+      simp only [hx, Bool.false_eq_true, if_false]
+      cases m with
+      | none => exact loop_some xs (getIndent l)
+      | some a =>
+        obtain ⟨k, hk, hle⟩ := loop_some xs (if getIndent l < a then getIndent l else a)
+        refine ⟨k, hk, ?_⟩
+        split at hle <;> omega
+    · split
+      · exact ih m l hmem hne
+      · cases m with
+        | none => exact ih _ l hmem hne
+        | some a => exact ih _ l hmem hne
+
+/-- the common amount `_dedent` removes is at most the indentation of every non-empty line -/
+theorem getMinIndent_le (lines : List Line) (l : Line) (hl : l ∈ lines) (hne : l ≠ []) :
+    getMinIndent lines ≤ getIndent l := by
+  obtain ⟨k, hk, hle⟩ := loop_le_mem lines none l hl hne
+  simp [getMinIndent, hk, hle]
+
+/-- **`_dedent` never removes a non-blank character**: from every line it drops the same number of columns
+(`getMinIndent lines`, fewer only when the line is shorter), and what it drops is white space -/
+theorem dedent_removes_only_space (lines : List Line) (l : Line) (hl : l ∈ lines) :
+    (l.take (getMinIndent lines)).all pyIsSpace = true ∧
+    l = l.take (getMinIndent lines) ++ l.drop (getMinIndent lines) ∧
+    l.drop (getMinIndent lines) ∈ dedent lines := by
+  refine ⟨?_, (List.take_append_drop _ _).symm, List.mem_map.mpr ⟨l, hl, rfl⟩⟩
+  by_cases hne : l = []
+  · subst hne; simp
+  · have hle := getMinIndent_le lines l hl hne
+    have hsplit := List.takeWhile_append_dropWhile (p := pyIsSpace) (l := l)
+    rw [List.all_eq_true]
+    intro x hx
+    have : l.take (getMinIndent lines) = (l.takeWhile pyIsSpace).take (getMinIndent lines) := by
+      have h2 : (l.takeWhile pyIsSpace ++ l.dropWhile pyIsSpace).take (getMinIndent lines) =
+          (l.takeWhile pyIsSpace).take (getMinIndent lines) := List.take_append_of_le_length hle
+      rwa [hsplit] at h2
+    rw [this] at hx
+    exact mem_takeWhile_true pyIsSpace l x (List.mem_of_mem_take hx)
+
+/-- the shape of C09-r3-1: the continuation block opens deeper than a later line; the later line keeps all its
+characters (the first line's indentation is NOT the amount removed) -/
+example :
+    dedent ["        literal".toList, "".toList, "    Larger values are slower".toList] =
+      ["    literal".toList, "".toList, "Larger values are slower".toList] ∧
+    getInitialIndent ["        literal".toList, "".toList, "    Larger".toList] = 8 ∧
+    getMinIndent ["        literal".toList, "".toList, "    Larger".toList] = 4 := by
+  decide
+
+end Napoleon
+
+/-! ## 20. an inherited property docstring is parsed again for the inheriting object: nothing was routed away -/
+namespace Property
+
+theorem description_none_of_body (fs : List PField) : ∀ st : PState, st.hasBody = true → st.description = none →
+    (fs.foldl pstep st).description = none := by
+  induction fs with
+  | nil => intro st _ h; exact h
+  | cons f fs ih =>
+    intro st hb hd
+    have h1 : (pstep st f).hasBody = true := by unfold pstep; cases f.tag <;> simp [hb]
+    have h2 : (pstep st f).description = none := by unfold pstep; cases f.tag <;> simp [hb, hd]
+    exact ih _ h1 h2
+
+/-
+Full statement — FALSE of the current code:
+  theorem inherited_holds_all (f ∈ fields) : f ∈ (inheritedView docHasBody fields).otherFields
+-/
+
+/-- **partial**: a property docstring that has its own description is inherited with every field -/
+theorem inherited_holds_all_partial (fields : List PField) (f : PField) (hf : f ∈ fields) :
+    f ∈ (inheritedView true fields).otherFields := by
+  have : (handle true fields).description = none := description_none_of_body fields ⟨true, none, none, []⟩ rfl rfl
+  simp [inheritedView, this, hf]
+
+/-- **counterexample**: documented by `@return:` only — the override without docstring inherits nothing
+(open finding inherited-property:return-only-docstring-not-inherited) -/
+theorem inherited_holds_all_counterexample :
+    (inheritedView false [⟨.ret, 1, true⟩, ⟨.rtype, 2, true⟩]).otherFields = [] := by
+  decide
+
+/-- whereas the defining property's own view has lost `rtype` from its fields (it became the type): reusing that
+object for the inheriting property would lose the text there (seeded C09-r3-2) -/
+example : (handle true [⟨.rtype, 2, true⟩, ⟨.other, 3, true⟩]).otherFields = [⟨.other, 3, true⟩] ∧
+    (inheritedView true [⟨.rtype, 2, true⟩, ⟨.other, 3, true⟩]).otherFields = [⟨.rtype, 2, true⟩, ⟨.other, 3, true⟩] := by
+  decide
+
+end Property
